@@ -950,9 +950,79 @@ def rule_u13(F):
     return r
 
 
+def rule_u14(F):
+    """What the type checker accepts, the lowering can lower.  Operators on String / IpAddr / List operands are desugared into
+    methods (`append`, `new`, `concat`): the type checker records the method for the operators it accepts, and the MIR lowering has
+    one dispatcher per operand type that handles exactly some operators and stops with an internal compiler error for the rest.
+    Both sides are evaluated (vf/sx) for each of the thirteen binary operators: every (method, operator) the type checker can record
+    must be one the lowering handles - otherwise `[1] - [2]` type-checks and compilation panics instead of reporting."""
+    from .. import sx
+    OPS_ = ["Add", "Sub", "Mul", "Div", "Mod", "Eq", "Ne", "Lt", "Le", "Gt", "Ge", "And", "Or"]
+    r = RuleResult("C06.U14", "operator desugaring: every (method, operator) the type checker records is handled by the MIR lowering (no ice! on accepted input)", floor=3)
+    tps = [p for p in F.paths() if p.endswith("::binop") and p.startswith("typechecker::expr") and "{closure" not in p]
+    if not tps:
+        r.missing("typechecker binop")
+        return r
+    tb = F.body(tps[0])
+    opos = [i for i, p_ in enumerate(tb.hir["params"]) if "BinOp" in str(p_.get("ty") or "")]
+    if not opos:
+        r.missing("the operator parameter of the type checker's binop")
+        return r
+    topaque = {p for p in F.paths() if p.startswith("typechecker::") and p != tb.path and hir.last(p) in ("expr", "get_function_in_type", "unify", "resolve_type", "fresh_var", "fresh_int", "fresh_float")}
+    accepted = {}      # method -> set of operators
+    for op in OPS_:
+        try:
+            paths = sx.Exec(F, opaque=topaque, max_paths=4000).paths(tb.hir, {opos[0]: op})
+        except (sx.TooManyPaths, sx.Unknown) as e_:
+            r.bad(tb.path, "type checker on " + op, relfile(tb.file), tb.line, "cannot evaluate the type checker's binop on BinOp::%s: %s" % (op, e_))
+            continue
+        for res, evs in paths:
+            for e in evs:
+                if e[1] == "get_function_in_type":
+                    a = e[3] if e[0] == "mcall" else e[2]
+                    m = a[-1] if a else None
+                    if isinstance(m, str) and not isinstance(m, sx.Sym):
+                        accepted.setdefault(str(m), set()).add(op)
+    handled = {}
+    for x in F.all_bodies():
+        if not x.hir or not x.path.startswith("mir::lower::Lowerer") or "{closure" in x.path:
+            continue
+        ps_ = x.hir.get("params") or []
+        bpos = [i for i, p_ in enumerate(ps_) if "ast::BinOp" in str(p_.get("ty") or "")]
+        if not bpos or len([p_ for p_ in ps_ if "Meta<ast::Expr>" in str(p_.get("ty") or "")]) < 2:
+            continue
+        lop = {p for p in F.paths() if p.startswith("mir::lower") and p != x.path}
+        for op in OPS_:
+            try:
+                paths = sx.Exec(F, opaque=lop).paths(x.hir, {bpos[0]: op})
+            except (sx.TooManyPaths, sx.Unknown):
+                continue
+            for res, evs in paths:
+                if res == ("diverges",):
+                    continue
+                for e in evs:
+                    if e[1] == "desugared_binop":
+                        a = e[3] if e[0] == "mcall" else e[2]
+                        for y in a:
+                            if isinstance(y, sx.Str) or (isinstance(y, str) and not isinstance(y, sx.Sym) and y and y[0].islower() and y.isidentifier()):
+                                handled.setdefault(str(y), set()).add(op)
+    if not accepted or not handled:
+        r.missing("desugared operators (type checker records %s, lowering handles %s)" % (sorted(accepted), sorted(handled)))
+        return r
+    for m in sorted(accepted):
+        ops = accepted[m]
+        hs = handled.get(m, set())
+        r.inst("method %s" % m, {"method": m, "type_checker_records_it_for": sorted(ops), "lowering_handles": sorted(hs)})
+        for op in sorted(ops - hs):
+            r.bad(tb.path, "`%s` desugared to %s" % (op, m), relfile(tb.file), tb.line,
+                  "the type checker accepts BinOp::%s on an operand that is desugared into the method `%s`, but the MIR lowering only handles %s for it and stops with an internal "
+                  "compiler error otherwise: a script the type checker accepts makes compilation panic" % (op, m, sorted(hs) or "nothing"))
+    return r
+
+
 def rules(ctx):
     F = ctx["F"]
-    return [rule_u1(F), rule_u2(F), rule_u3(F), rule_u3b(F), rule_u4(F), rule_u5(F), rule_u6(F), rule_u7(F), rule_u8(F), rule_u9(F), rule_u10(F), rule_u11(F), rule_u12(F), rule_u13(F)]
+    return [rule_u1(F), rule_u2(F), rule_u3(F), rule_u3b(F), rule_u4(F), rule_u5(F), rule_u6(F), rule_u7(F), rule_u8(F), rule_u9(F), rule_u10(F), rule_u11(F), rule_u12(F), rule_u13(F), rule_u14(F)]
 
 
 def canary(C):
